@@ -90,6 +90,8 @@ struct GoRec
     std::vector<InfoRec> infos;
     int iterations_done = 0;
     bool stop_sent = false, stop_consumed = false, stop_processed = false;
+    bool exit_pending = false;  // the GUI sent quit / closed the pipe before this go was answered: no bestmove is owed
+    int64_t stop_line_no = 0;  // ordinal (among all `stop` lines the GUI sent) of the stop meant for this go
     std::string stop_window;
     int64_t nodes_at_stop = 0, clock_at_stop = 0;
     int64_t nodes_at_deadline = -1;
@@ -138,6 +140,10 @@ struct World
     // pipe / transcript
     std::deque<std::string> inq;
     bool in_eof = false;
+    bool exit_requested = false;      // the GUI sent quit or closed the pipe
+    bool uci_destroyed = false;       // the reader left Uci::loop(): main() destroyed the Uci object and is in exit()
+    int64_t exit_window_nodes = -1;   // node visits the other threads still get before exit_group (drawn)
+    int64_t exit_nodes_base = 0, exit_steps = 0;
     std::string out_line;
     int out_line_first_writer = -1;
     bool out_line_mixed = false;
@@ -161,6 +167,7 @@ struct World
     bool position_set = false;
     std::vector<GoRec> gos;
     int cur_go = -1;
+    int64_t stop_lines_sent = 0, stop_lines_consumed = 0;  // the pipe is FIFO: the n-th stop consumed is the n-th stop sent
     int consuming_go = -1;
     std::vector<ReadyRec> readys;
     bool poisoned = false;
